@@ -3,7 +3,7 @@
 From Coq Require Import List NArith Bool Lia String.
 From Breadlog Require Import Model.Peg Model.Text Model.Regex Model.Glue Model.Tables.
 From Breadlog Require Import Gen.Grammar Gen.Consts.
-From Breadlog Require Import Proofs.PegFacts Proofs.RuleLemmas Proofs.GlueSpec Proofs.StatementLemmas Proofs.FileSpec.
+From Breadlog Require Import Proofs.PegFacts Proofs.RuleLemmas Proofs.GlueSpec Proofs.StatementLemmas Proofs.ArgLemmas Proofs.FileSpec.
 From Breadlog Require Import Properties.Common.
 Import ListNotations.
 Open Scope N_scope.
@@ -102,6 +102,10 @@ Proof. vm_compute. repeat split; reflexivity. Qed.
    of both kinds with arbitrary text), then a final layout; an item is
      IStmt : name !( layout "message"    -- name simple or module-qualified (c ("::")? (d ("::")?)* ),
                                             message any plain characters and backslash escapes,
+     IStmtA: name !( layout [target: layout "text" layout , layout]
+                            [key [= value] {, key [= value]} [,] layout ; layout] "message"
+             -- with any layout between all tokens; keys are identifiers, values are digit runs,
+                identifiers or string literals (Proofs/ArgLemmas.v: args_ok),
      IName : a name that starts no bracketed macro call,
      IChar : any other character (not whitespace, not a name start, not opening a comment).
    items_ok is purely syntactic (no hypothesis mentions the parser).  The result is computed in closed
@@ -109,8 +113,10 @@ Proof. vm_compute. repeat split; reflexivity. Qed.
    ignore directive --
      message style (or under a no-kvp directive): at the byte offset / line / column of the first
        character of the message value, with the reference the message text holds;
-     structured style: directly after the opening bracket, column one past the bracket, with the
-       `ref = ` prefix and the `; ` suffix of a statement without key-values;
+     structured style: at the value of the first key-value whose key is `ref` and which has a value,
+       with that value's text (trimmed) read as the reference; else directly after the target
+       argument when there is one, else directly after the opening bracket, with the `ref = ` prefix
+       and the suffix `, ` when key-values exist and `; ` when not (stmt_step, stmt_stepA);
    and nothing for names, characters, comments or statements of other macros. *)
 Theorem C10_canonical_files : forall cfg its fin,
   items_ok its fin ->
@@ -171,9 +177,9 @@ Proof.
   - eexists. eexists. vm_compute. repeat split; reflexivity.
 Qed.
 
-(* NOT proved: statements with a target argument or key-values as items of the file language (for
-   those, (3) takes over from the parse tree on), and bracketed macro calls whose arguments do not begin
-   with a string literal; that link is the correspondence + oracle campaign. *)
+(* NOT proved: key-values with modifiers (`:?`, `:debug` ...) or with values that are general
+   expressions, and bracketed macro calls whose arguments do not begin with a string literal, a target
+   or key-values; that link is the correspondence + oracle campaign. *)
 
 (* non-vacuity: a statement with target, key-values, odd layout and a comment between arguments,
    preceded by "return": found, reference at the first character of the message *)
